@@ -522,6 +522,60 @@ pub fn bfs(run: &mut crate::engine::Run, prop: &'static str, name: &str, m: &Mac
     stats
 }
 
+/// RUNSEQ: run-length sequences.  A symbol is (event, repeat count); every
+/// sequence of `depth` symbols is expanded into a history of up to
+/// depth x max-repeat calls, whose last call and the probe battery are judged.
+/// Counters that saturate, budgets that run out and tables that fill up need
+/// many repetitions of few distinct events, which plain depth cannot reach.
+pub fn runseq(run: &mut crate::engine::Run, prop: &'static str, name: &str, cfg: &Cfg, events: &[Event], repeats: &[usize], depth: u32, filter: &Filter) {
+    let ns = (events.len() * repeats.len()) as u64;
+    let total: u64 = (1..=depth).map(|d| ns.pow(d)).sum();
+    let probe_pkts = probes(cfg);
+    let nr = repeats.len() as u64;
+    run.sweep_chunked(
+        &format!("RUNSEQ {}: every sequence of length <= {} over {} events x repeat counts {:?}", name, depth, events.len(), repeats),
+        total,
+        |acc, lo, hi| {
+            let owned = Owned::new(cfg);
+            for i in lo..hi {
+                let mut r = i;
+                let mut len = 1u32;
+                while r >= ns.pow(len) {
+                    r -= ns.pow(len);
+                    len += 1;
+                }
+                let mut history: Vec<Event> = vec![];
+                for _ in 0..len {
+                    let sym = r % ns;
+                    r /= ns;
+                    let ev = &events[(sym / nr) as usize];
+                    for _ in 0..repeats[(sym % nr) as usize] {
+                        history.push(ev.clone());
+                    }
+                }
+                let last = history.pop().unwrap();
+                let m = Machine { cfg: cfg.clone(), init: history, alphabet: vec![last] };
+                let node = m.eval(&owned, &probe_pkts, &[0]);
+                acc.evals += 1;
+                acc.trans += node.calls;
+                acc.validated += 1;
+                if i % 101 == 0 {
+                    acc.state(node.key);
+                }
+                if len >= 2 {
+                    acc.nontrivial(Fnv::default().u64(0x5E9).u64(i).finish());
+                }
+                // the filter sees the whole expanded history
+                let mut h = m.init.clone();
+                h.push(m.alphabet[0].clone());
+                for df in node.diffs.iter().filter(|df| filter(df, &h)) {
+                    acc.violation(h.len() as u64, "run-length-history", format!("after {} call(s): {}", h.len(), df.text), || json!({"prop": prop, "check": "history", "cfg": m.cfg, "init": m.init, "history": [m.alphabet[0].clone()]}));
+                }
+            }
+        },
+    );
+}
+
 /// PAIRSEQ: every ordered pair (first, second) over two event lists, on a fresh
 /// context each; the second step and the probe battery are judged.
 pub fn pairseq(run: &mut crate::engine::Run, prop: &'static str, name: &str, cfg: &Cfg, first: &[Event], second: &[Event], filter: &Filter) {
